@@ -1,6 +1,7 @@
 import LunaVerif.Core.Proto
 import LunaVerif.Model.Usb3.Scrambler
 import LunaVerif.Model.Usb3.PhyTx
+import LunaVerif.Model.Usb3.PhyRx
 open LunaVerif LunaVerif.Proto LunaVerif.Crc LunaVerif.Scrambler
 
 def symsOf (data ctrl : Nat) : List Symbol :=
@@ -21,20 +22,29 @@ model 1: `clear enable hold valid data ctrl ready`         -> `valid data ctrl s
 model 2: same inputs, scrambler feeding a descrambler      -> the scrambler's five outputs, then the descrambler's
 model 3: `sink.valid sink.data sink.ctrl can_send_skp enable_scrambling tx_electrical_idle`
                                                            -> `phy.tx_data phy.tx_datak sink.ready`
-         (transmit half of USB3PhysicalLayer: Scrambler(0xffff) -> CTCSkipInserter -> PHY; sink.valid is unused) -/
+         (transmit half of USB3PhysicalLayer: Scrambler(0xffff) -> CTCSkipInserter -> PHY; sink.valid is unused)
+model 4: `phy.rx_data phy.rx_datak enable_scrambling`
+           -> `source.valid source.data source.ctrl raw_source.valid raw_source.data raw_source.ctrl skip_removed
+               ctc_bytes_in_buffer alignment_offset`
+         (receive half: CTCSkipRemover -> RxWordAligner -> Descrambler() -> RxPacketAligner) -/
 def main : IO Unit :=
-  runDriver (σ := Nat × Nat × Nat × Reg × Reg × PhyTx.State)
-    (fun cfg => (fld cfg 0, fld cfg 1, fld cfg 2, initReg (fld cfg 1), initReg (fld cfg 2), PhyTx.init))
-    (fun (model, iS, iD, rS, rD, pt) i =>
+  runDriver (σ := Nat × Nat × Nat × Reg × Reg × PhyTx.State × PhyRx.State)
+    (fun cfg => (fld cfg 0, fld cfg 1, fld cfg 2, initReg (fld cfg 1), initReg (fld cfg 2), PhyTx.init, PhyRx.init))
+    (fun (model, iS, iD, rS, rD, pt, pr) i =>
       match model with
-      | 0 => ((model, iS, iD, lfsrStep iS rS (n2b (fld i 0)) (n2b (fld i 1)), rD, pt), [ofLsbBits (lfsrValue rS)])
+      | 0 => ((model, iS, iD, lfsrStep iS rS (n2b (fld i 0)) (n2b (fld i 1)), rD, pt, pr), [ofLsbBits (lfsrValue rS)])
       | 1 =>
         let (r, o) := step iS rS (inOf i)
-        ((model, iS, iD, r, rD, pt), outRow o)
+        ((model, iS, iD, r, rD, pt, pr), outRow o)
       | 2 =>
         let ((r1, r2), oS, oD) := pairStep iS iD (rS, rD) (inOf i)
-        ((model, iS, iD, r1, r2, pt), outRow oS ++ outRow oD)
-      | _ =>
+        ((model, iS, iD, r1, r2, pt, pr), outRow oS ++ outRow oD)
+      | 3 =>
         let (pt', o) := PhyTx.step pt
           ⟨symsOf (fld i 1) (fld i 2), n2b (fld i 3), n2b (fld i 4), n2b (fld i 5)⟩
-        ((model, iS, iD, rS, rD, pt'), [Ss.packData o.tx, Ss.packCtrl o.tx, b2n o.sinkReady]))
+        ((model, iS, iD, rS, rD, pt', pr), [Ss.packData o.tx, Ss.packCtrl o.tx, b2n o.sinkReady])
+      | _ =>
+        let (pr', o) := PhyRx.step pr ⟨Ss.unpack 4 (fld i 0) (fld i 1), n2b (fld i 2)⟩
+        ((model, iS, iD, rS, rD, pt, pr'),
+         [b2n o.srcValid, Ss.packData o.srcWord, Ss.packCtrl o.srcWord, b2n o.rawValid, Ss.packData o.rawWord,
+          Ss.packCtrl o.rawWord, b2n o.skipRemoved, o.ctcBytes, o.offset]))
